@@ -7,7 +7,11 @@ import (
 	"bytes"
 	"fmt"
 	"io"
+	"os"
 	"path/filepath"
+	"runtime"
+	"runtime/debug"
+	"strings"
 	"testing"
 	"time"
 
@@ -51,6 +55,10 @@ func run(t *testing.T, tape *simrt.Tape) *hx.Outcome {
 	faultDen := []int{0, 0, 0, 12}[tape.Draw("cfg", 4)]
 	root, cleanup := hx.RunDir()
 	defer cleanup()
+	// no garbage collection during a run: os.File finalizers would close leaked descriptors at an
+	// unseeded moment (the descriptor audit below must replay); collected once after the run
+	defer runtime.GC()
+	defer debug.SetGCPercent(debug.SetGCPercent(-1))
 	var ws []*wrec
 	hits, misses := 0, 0
 	res := simrt.Run(t, tape, simrt.Options{MaxSteps: 200000, HangAfter: time.Hour}, func(s *simrt.Sim, mt *simrt.Task) {
@@ -192,6 +200,22 @@ func run(t *testing.T, tape *simrt.Tape) *hx.Outcome {
 				r.Close()
 			}
 		}
+		// descriptor audit: every reader and writer is closed, so only the descriptor cache may still
+		// hold files of this cache open, and it holds at most MaxCacheFds of them (an evicted file is
+		// closed once its last user is done with it)
+		if useDir && !s.Failed() {
+			open := 0
+			if ents, err := os.ReadDir("/proc/self/fd"); err == nil {
+				for _, e := range ents {
+					if tgt, err := os.Readlink("/proc/self/fd/" + e.Name()); err == nil && strings.HasPrefix(tgt, filepath.Join(root, "c")+"/") {
+						open++
+					}
+				}
+			}
+			if open > fdCap {
+				s.Fail("descriptor-leak", "all readers and writers are closed but %d files of the cache directory are still open; the descriptor cache holds at most %d", open, fdCap)
+			}
+		}
 		bc.Close()
 	})
 	out.Res = res
@@ -262,11 +286,11 @@ func judge(s *simrt.Sim, ws []*wrec, key string, got []byte, seq uint64) *wrec {
 
 func TestC11(t *testing.T) {
 	hx.Main(t, hx.Prop{
-		ID:   "C11",
-		Rule: "each run draws directory/memory cache, memory-LRU and fd-LRU capacity 1-3, SyncAdd, Direct, FadvDontNeed, 2-5 keys (more than the capacities), 2-4 client tasks with up to 8 operations each: writers Add/Write in 1-3 pieces/Commit or Abort/Close with self-describing unique contents of 0..70000 bytes, readers Get/ReadAt/ranged re-reads/Close with per-call Direct/PassThrough options; every lock and every os call of cache.go (open, create-temp, mkdir, rename, remove) is a scheduling point and, in a quarter of the runs, a fault point (EIO/ENOSPC); the background persistence goroutine is a scheduled task. non-trivial = at least one hit in a run where a key had several committed writers or more keys were committed than an LRU holds; distinct = schedule hash x configuration",
-		Run:  run,
+		ID:              "C11",
+		Rule:            "each run draws directory/memory cache, memory-LRU and fd-LRU capacity 1-3, SyncAdd, Direct, FadvDontNeed, 2-5 keys (more than the capacities), 2-4 client tasks with up to 8 operations each: writers Add/Write in 1-3 pieces/Commit or Abort/Close with self-describing unique contents of 0..70000 bytes, readers Get/ReadAt/ranged re-reads/Close with per-call Direct/PassThrough options; every lock and every os call of cache.go (open, create-temp, mkdir, rename, remove) is a scheduling point and, in a quarter of the runs, a fault point (EIO/ENOSPC); the background persistence goroutine is a scheduled task. non-trivial = at least one hit in a run where a key had several committed writers or more keys were committed than an LRU holds; distinct = schedule hash x configuration. With the garbage collector off for the run, once every reader and writer is closed at most MaxCacheFds files of the cache directory may still be open (descriptor audit)",
+		Run:             run,
 		HangIsViolation: true,
-		Components: map[string]string{"cache.directoryCache": "real (instrumented copy) on tmpfs", "cache.MemoryCache": "real", "cacheutil.LRUCache": "real", "sync.Pool": "deterministic LIFO replacement (simsync.Pool)", "disk": "real tmpfs behind the simos seam (whole-call faults)"},
-		Assumptions: []string{"torn writes on *os.File are not injectable (concrete type); disk faults are whole-call errors", "a miss is always legal; only the content of hits is judged"},
+		Components:      map[string]string{"cache.directoryCache": "real (instrumented copy) on tmpfs", "cache.MemoryCache": "real", "cacheutil.LRUCache": "real", "sync.Pool": "deterministic LIFO replacement (simsync.Pool)", "disk": "real tmpfs behind the simos seam (whole-call faults)"},
+		Assumptions:     []string{"torn writes on *os.File are not injectable (concrete type); disk faults are whole-call errors", "a miss is always legal; only the content of hits is judged"},
 	})
 }
